@@ -790,9 +790,9 @@ def read_facts():
 def run(ck):
     rng = random.Random(ck.seed * 7919 + 17)
     thorough = ck.tier == "thorough"
-    gen = run_all(["pipeline", "inspect", "run_space", "cli", "loader"])
+    gen = run_all(["pipeline", "inspect", "run_space", "cli", "loader", "placement"])
     gen = {k: v for k, v in gen.items() if k in ("cli", "run_space", "pipeline")}   # the inspect facts are C02's obligation
-    ck.build_models(["Model/PipelineLib.v", "Model/Cli.v", "Gen/PipelineGen.v", "Gen/InspectGen.v", "Gen/RunSpaceGen.v", "Gen/CliGen.v", "Model/Loader.v", "Gen/LoaderGen.v"])
+    ck.build_models(["Model/PipelineLib.v", "Model/Cli.v", "Gen/PipelineGen.v", "Gen/InspectGen.v", "Gen/RunSpaceGen.v", "Gen/CliGen.v", "Model/Loader.v", "Gen/LoaderGen.v", "Model/Placement.v", "Gen/PlacementGen.v"])
     proved = ck.prove(gen_results=gen)
     if thorough and proved:
         ck.coqchk()
@@ -947,7 +947,8 @@ def placement_oracle(ck):
     nodes = [{"processor": "FloatValueDataSourceWithDefault"}, {"processor": 'template:"out_{value}.txt":path'}, {"processor": "FloatTxtFileSaver"}]
     fixed = [{"processor": "FloatValueDataSourceWithDefault"}, {"processor": "FloatTxtFileSaver", "parameters": {"path": "out_fixed.txt"}}]
     n = 0
-    for place, nodes in [(pl, nd) for pl in ("top", "nested", "top+nested-decoy", "file", "file+nested-decoy") for nd in (nodes, fixed)]:
+    observed = []
+    for place, nodes in [(pl, nd) for pl in ("top", "nested", "top+nested-decoy", "file", "file+nested-decoy", "none") for nd in (nodes, fixed)]:
         for flag, args, want_rc, want_out in (("cap-2", ["--run-space-max-runs", "2"], 3, 0), ("dry-run", ["--run-space-dry-run"], 0, 0),
                                              ("cap-3", ["--run-space-max-runs", "3"], 0, 3 if nodes is not fixed else 1)):
             d = tempfile.mkdtemp(prefix="verif_c17place_")
@@ -972,6 +973,10 @@ def placement_oracle(ck):
                                    text=True, timeout=TIMEOUT)
                 outs = sorted(x for x in os.listdir(d) if x.startswith("out_"))
                 n += 1
+                if nodes is fixed:
+                    observed.append((place, flag, p.returncode, len(outs)))
+                if place == "none":      # no run space anywhere: judged by the model comparison only
+                    continue
                 if p.returncode != want_rc or len(outs) != want_out:
                     ck.fail_input("C17:run-space-flag-misses-the-run-space-in-force:%s:%s:%s" % (place, flag, "keys-optional" if nodes is fixed else "keys-required"),
                                   "run space of 3 runs written %s, `%s`: exit code %d with output files %s; expected exit %d and %d file(s)"
@@ -981,7 +986,49 @@ def placement_oracle(ck):
                 ck.corr_problem("placement oracle could not run (%s, %s)" % (place, flag), repr(ex)[:300])
             finally:
                 shutil.rmtree(d, ignore_errors=True)
+    placement_correspondence(ck, observed)
     return n
+
+
+PLACEMENT_HEADER = """From Coq Require Import List String ZArith Bool. Import ListNotations. Open Scope string_scope.
+From SV Require Import Model.RunSpace Model.Loader Model.Placement Gen.RunSpaceGen Gen.LoaderGen Gen.PlacementGen.
+Definition real : raw_spec := mkRawSpec None None None [mkRawBlock ByPosition (Some [("value", [VInt 1; VInt 2; VInt 3])]) None].
+Definition decoy : raw_spec := mkRawSpec None None None [mkRawBlock ByPosition (Some [("value", [VInt 9])]) None].
+Definition cases : list pcase := [
+%s
+].
+Eval vm_compute in pbad LoaderGen.impl RunSpaceGen.impl PlacementGen.loader_prio PlacementGen.cli_patch cases 0.
+"""
+
+
+def placement_correspondence(ck, observed):
+    """Model/Placement.v (with the two facts the translator read) against what `semantiva run` did in the placement oracle's
+    launches of the keys-optional pipeline: exit code and number of files, predicted from the block the model says is in
+    force after the flags were written.  The last case is a canary that must mismatch."""
+    docs = {"top": "mkDoc (Some real) None", "nested": "mkDoc None (Some real)", "top+nested-decoy": "mkDoc (Some real) (Some decoy)",
+            "file": "mkDoc None None", "file+nested-decoy": "mkDoc None (Some decoy)", "none": "mkDoc None None"}
+    fls = {"cap-2": ("(Some 2%Z)", "false"), "dry-run": ("None", "true"), "cap-3": ("(Some 3%Z)", "false")}
+    lits = []
+    for place, flag, rc, nfiles in observed:
+        cap, dry = fls[flag]
+        fl = "mkFlags %s %s %s" % ("(Some real)" if place.startswith("file") else "None", cap, dry)
+        lits.append("((%s, %s), (%d%%Z, %d%%nat))" % (docs[place], fl, rc, nfiles))
+    if not lits:
+        return
+    lits.append("((mkDoc (Some real) None, mkFlags None (Some 2%Z) false), (0%Z, 7%nat))")      # canary
+    per, errs = core.mismatches("C17_placement", [PLACEMENT_HEADER % ";\n".join(lits)], timeout=300)
+    for k, rc, out in errs:
+        ck.corr_problem("placement correspondence did not evaluate (rc=%s)" % rc, out)
+    if per and per[0] is not None:
+        bad = per[0][0]
+        if len(observed) not in bad:
+            ck.corr_problem("canary case of the placement correspondence was not reported as a mismatch (comparison is not live)", "")
+        for b in [x for x in bad if x != len(observed)][:4]:
+            place, flag, rc, nfiles = observed[b]
+            ck.corr_problem("Model/Placement.v predicts another outcome than `semantiva run` showed",
+                            "run space written %s, flag %s: observed exit %d with %d file(s)" % (place, flag, rc, nfiles),
+                            case={"place": place, "flag": flag, "exit": rc, "files": nfiles})
+        ck.notes["placement_correspondence"] = {"cases": len(observed), "disagreements": len([x for x in bad if x != len(observed)])}
 
 
 def replay(obj):
